@@ -1147,7 +1147,8 @@ fn mutator(rng: &mut Rng, calls: &mut Vec<Call>) {
         8 => calls.push(Call::SetKb(rng.range(0, 17) as i32)),
         9 => calls.push(Call::Simple(*rng.pick(&["reset", "ack", "commit_preedit", "clean_preedit", "clean_bopomofo"]))),
         10 => calls.push(Call::Simple(*rng.pick(&["cand_open", "cand_close", "cand_list_next", "cand_list_prev", "cand_list_first", "cand_list_last"]))),
-        11 => calls.push(Call::CandChoose(rng.range(-1, 6) as i32)),
+        // negative indices overflow `page_no * per_page + n` in debug builds (a DebugOnly panic that belongs to C01/C07)
+        11 => calls.push(Call::CandChoose(rng.range(0, 6) as i32)),
         12 => calls.push(Call::CtrlNum(b'2' + rng.below(3) as u8)),
         13 => {
             // open a candidate list on a fresh syllable
